@@ -13,6 +13,7 @@ roundtrip  the real as_etree_node / mk_node -> tostring -> fromstring -> from_no
 from __future__ import annotations
 
 import copy
+import enum
 import glob
 import inspect
 import json
@@ -66,9 +67,9 @@ def _norm(c):
         return c
     if isinstance(c, int):
         return 'N:' + str(c)
+    if isinstance(c, enum.Enum):
+        c = c.value
     if isinstance(c, str):
-        if isinstance(c, etree.QName):
-            return c
         s = str(c)
         if s.startswith('F:'):
             try:
@@ -464,8 +465,6 @@ class Builder:
             cur = pi.prop.get_actual_value(value)
             if cur is None and not pi.prop.is_optional \
                     and pi.kind in ('attr', 'nodetext', 'nodeqname', 'sub', 'container', 'anynode'):
-                if pi.kind == 'nodetext' and not getattr(pi.prop, '_min_length', 0):
-                    continue
                 return False
             if cur is not None and pi.kind in ('sub', 'container') and not self.writable(cur):
                 return False
@@ -596,6 +595,8 @@ class Builder:
                 return copy.deepcopy(prop._default_py_value)  # noqa: SLF001
             return [] if (k in LIST_KINDS and k != 'anynode') else None
         if vc == 'absent':
+            if k == 'ext':
+                raise Uninstantiable('the setter of ExtensionNodeProperty does not take None')
             return None
         if vc == 'eqd':
             v = prop._default_py_value if prop._default_py_value is not None else prop._implied_py_value  # noqa: SLF001
@@ -691,6 +692,23 @@ _MISSING_CHILD = re.compile(r'Missing child element\(s\)\. Expected is (?:one of
 _NOT_EXPECTED = re.compile(r'This element is not expected\. Expected is (?:one of )?\( (.*) \)')
 _MISSING_ATTR = re.compile(r"The attribute '([^']+)' is required but missing")
 _ATTR_OF = re.compile(r"attribute '([^']+)'")
+
+
+def _all_ns(doc) -> dict:
+    ns = {}
+    for el in doc.iter():
+        for k, v in (el.nsmap or {}).items():
+            if k:
+                ns.setdefault(k, v)
+    return ns
+
+
+def _index_path(el) -> list[int]:
+    out = []
+    while el.getparent() is not None:
+        out.append(el.getparent().index(el))
+        el = el.getparent()
+    return list(reversed(out))
 
 
 def short_exc(ex) -> str:
@@ -789,34 +807,100 @@ class Xml:
             return [], doc
         return [(e.path, e.message, err_class(e.message)) for e in self.w.schema.error_log], doc
 
-    def verdict(self, obj, pi: PropInfo | None = None, vc: str = '', strip=None):
-        """XSD verdict for obj: 'valid' | 'struct' | 'value' | 'na' (+ the error list)."""
-        try:
-            got = self.document(obj)
-        except Exception as ex:  # noqa: BLE001  (writing the host failed: no verdict)
-            return 'na', [('', short_exc(ex), 'nodoc')]
-        if got is None:
-            return 'na', []
-        root, target = got
-        if strip is not None:
-            strip(target)
-        errors, _ = self.validate(root)
-        if not errors:
+    def verdict(self, obj, pi: PropInfo | None = None, vc: str = '', strip=None, xml1: bytes | None = None):
+        """XSD verdict for obj: 'valid' | 'struct' | 'value' | 'na' (+ the error list).
+
+        xml1: the serialised document if the class has a validation context of its own (else obj is written into a
+        base instance of a class that holds it)."""
+        if xml1 is not None:
+            doc = etree.fromstring(xml1)
+            target = doc
+        else:
+            try:
+                got = self.document(obj)
+            except Exception as ex:  # noqa: BLE001  (writing the host failed: no verdict)
+                return 'na', [('', short_exc(ex), 'nodoc')]
+            if got is None:
+                return 'na', []
+            root, target_w = got
+            if strip is not None:
+                strip(target_w)
+            path_t = root.getroottree().getpath(target_w)
+            doc = etree.fromstring(etree.tostring(root))
+            found = doc.getroottree().xpath(path_t, namespaces=_all_ns(doc))
+            target = found[0] if found else doc
+        if self.w.schema.validate(doc):
             return 'valid', []
+        errors = [(e.path, e.message, err_class(e.message)) for e in self.w.schema.error_log]
+        tree = doc.getroottree()
+        depth_t = tree.getpath(target).count('/')
         kinds = set()
-        local = None if pi is None or pi.sub is None else etree.QName(pi.sub).localname
+        out = []
         for path, message, k in errors:
-            last = path.rsplit('/', 1)[-1]
-            if k == 'struct' and local is not None and 'This element is not expected' in message:
-                if vc in ('many', 'xsi') and last.split('[')[0].split(':')[-1] == local and '[' in last:
-                    k = 'facet'    # more items than the schema allows for this member: outside the schema value space
+            if k == 'struct' and 'This element is not expected' in message:
+                m = _NOT_EXPECTED.search(message)
+                if m and pi is not None and pi.sub is not None and vc in ('absent', 'stripped', 'empty', 'init') \
+                        and pi.sub.text in [t.strip() for t in m.group(1).split(',')]:
+                    k = 'missing'      # the member that was left out is required by the schema
                 else:
-                    m = _NOT_EXPECTED.search(message)
-                    if m and vc in ('absent', 'stripped', 'empty', 'init') \
-                            and pi.sub.text in [t.strip() for t in m.group(1).split(',')]:
-                        k = 'missing'  # the member that was left out is required by the schema
+                    k = self._diagnose(doc, path)
+            if pi is not None and vc in ('one', 'full', 'xsi', 'many') and path.count('/') > depth_t + 1 \
+                    and pi.kind in ('sub', 'sublist', 'container', 'containerlist'):
+                k = 'nested'           # inside the object that is the value: judged on the records of its own class
             kinds.add(k)
-        return ('struct' if 'struct' in kinds else 'value'), errors
+            out.append((path, message, k))
+        kinds.discard('nested')
+        if not kinds:
+            return 'value', out
+        return ('struct' if kinds & {'struct', 'order'} else 'value'), out
+
+    def _diagnose(self, doc, path: str) -> str:
+        """An element 'is not expected': wrong place ('order'), not combinable with its siblings ('combination':
+        a value outside the schema value space, e.g. both branches of a choice, too many items) or illegal
+        ('struct')?  Decided with the XSD on rearranged / reduced copies of the document."""
+        tree = doc.getroottree()
+        found = tree.xpath(path, namespaces=_all_ns(doc))
+        if not found or found[0].getparent() is None:
+            return 'struct'
+        idx_path = _index_path(found[0])
+
+        def variant(edit):
+            cp = copy.deepcopy(doc)
+            el = cp
+            for i in idx_path:
+                el = el[i]
+            edit(el.getparent(), el)
+            if self.w.schema.validate(cp):
+                return True
+            # the complaint about the shape is gone (what remains concerns values)
+            return all(err_class(e.message) != 'struct' for e in self.w.schema.error_log)
+        n = len(found[0].getparent())
+        my = idx_path[-1]
+        for pos in range(n):
+            if pos == my:
+                continue
+
+            def move(parent, el, pos=pos):
+                parent.remove(el)
+                parent.insert(pos, el)
+            if variant(move):
+                return 'order'
+        for other in range(n):
+            if other == my:
+                continue
+
+            def drop(parent, el, other=other):
+                parent.remove(parent[other])
+            if variant(drop):
+                return 'combination'
+
+        def alone(parent, el):
+            for ch in list(parent):
+                if ch is not el:
+                    parent.remove(ch)
+        if n > 2 and variant(alone):
+            return 'combination'
+        return 'struct'
 
     # ------------------------------------------------------------------ learning what the schema requires
     def objmap(self, obj, elem, out=None):
